@@ -109,6 +109,7 @@ MUTANTS = {
         "read_others_unguarded": [("_protocol/incoming.py", "            try:\n                self._read_others()\n            except DECODE_EXCEPTIONS:", "            try:\n                self._read_others()\n            except IncomingDecodeError:")],
     },
     "C16": {
+        "d76_reverted": [("_listener.py", "            if self.last_message.is_query() and self.heard:", "            if self.last_message.is_query() and self._registry.has_entries:")],
         "guard_disabled": [("_listener.py", "            self.data == data\n", "            False and self.data == data\n")],
         "guard_interval_zero": [("const.py", "_DUPLICATE_PACKET_SUPPRESSION_INTERVAL = 1000", "_DUPLICATE_PACKET_SUPPRESSION_INTERVAL = 0")],
         "guard_skips_queries": [("_listener.py", "            and not self.last_message.has_qu_question()", "            and not self.last_message.is_query()")],
